@@ -340,6 +340,62 @@ def outsOf : Obs → List Out
   | .timeout _ o => o
   | _ => []
 
+/-- CONTROL IS GIVEN UP ONLY AT A HOOK CALL (1): a turn of a sweep that ends with the sweep through made no hook call -/
+theorem turn_through_no_hook (now : Nat) : ∀ (ks : List Nat) (s : CState),
+    (sweepTurn now ks s).2.2 = none → ∀ x ∈ (sweepTurn now ks s).2.1, outsOf x = []
+  | [], s, _, x, hx => by simp [sweepTurn] at hx
+  | k :: ks, s, h, x, hx => by
+    unfold sweepTurn at h hx
+    cases hg : aget s.store k with
+    | none => rw [hg] at h hx; exact turn_through_no_hook now ks s h x hx
+    | some p =>
+      obtain ⟨at_, m⟩ := p
+      rw [hg] at h hx
+      dsimp only at h hx
+      by_cases hexp : now - at_ > s.ttlResp
+      · rw [if_pos hexp] at h hx
+        by_cases hno : (expired { s with store := adel s.store k } m).2 = []
+        · rw [if_pos hno] at h hx
+          dsimp only at h hx
+          rcases List.mem_cons.mp hx with h0 | h1
+          · rw [h0]; rfl
+          · exact turn_through_no_hook now ks _ h x h1
+        · rw [if_neg hno] at h
+          cases h
+      · rw [if_neg hexp] at h hx
+        exact turn_through_no_hook now ks s h x hx
+
+/-- CONTROL IS GIVEN UP ONLY AT A HOOK CALL (2): a turn that ends with the sweep suspended ends with a removal that called
+    the hook, and nothing before it in the turn did -/
+theorem turn_suspended_at_hook (now : Nat) : ∀ (ks : List Nat) (s : CState) (rest : Sweep),
+    (sweepTurn now ks s).2.2 = some rest →
+    ∃ pre k o, (sweepTurn now ks s).2.1 = pre ++ [Obs.timeout k o] ∧ o ≠ [] ∧ ∀ x ∈ pre, outsOf x = []
+  | [], s, rest, h => by simp [sweepTurn] at h
+  | k :: ks, s, rest, h => by
+    unfold sweepTurn at h ⊢
+    cases hg : aget s.store k with
+    | none => rw [hg] at h; exact turn_suspended_at_hook now ks s rest h
+    | some p =>
+      obtain ⟨at_, m⟩ := p
+      rw [hg] at h
+      dsimp only at h ⊢
+      by_cases hexp : now - at_ > s.ttlResp
+      · rw [if_pos hexp] at h ⊢
+        by_cases hno : (expired { s with store := adel s.store k } m).2 = []
+        · rw [if_pos hno] at h ⊢
+          dsimp only at h ⊢
+          obtain ⟨pre, k1, o1, he, hne, hpre⟩ := turn_suspended_at_hook now ks _ rest h
+          refine ⟨Obs.timeout k [] :: pre, k1, o1, ?_, hne, ?_⟩
+          · rw [he]; rfl
+          · intro x hx
+            rcases List.mem_cons.mp hx with h0 | h1
+            · rw [h0]; rfl
+            · exact hpre x h1
+        · rw [if_neg hno]
+          exact ⟨[], k, _, rfl, hno, fun x hx => by cases hx⟩
+      · rw [if_neg hexp] at h ⊢
+        exact turn_suspended_at_hook now ks s rest h
+
 /-- a sweep resumed at once every time it suspends, until it is through -/
 def sweepAll (now : Nat) : Nat → List Nat → CState → CState × List Obs
   | 0, _, s => (s, [])
